@@ -501,6 +501,26 @@ func (bb *TwoDBoundingBox) UnmarshalJSON(data []byte) error {
 // A 2D Point in the CRS indicated elsewhere
 type TwoDPoint [2]float64
 
+// UnmarshalJSONFromMap checks the number of ordinates (a JSON array with more than 2 elements would
+// otherwise be written past the end of the array)
+func (p *TwoDPoint) UnmarshalJSONFromMap(data interface{}) error {
+	ordinates, ok := data.([]interface{})
+	if !ok {
+		return fmt.Errorf(`a point should be an array but is a %T`, data)
+	}
+	if len(ordinates) != len(p) {
+		return fmt.Errorf(`a point should have %d ordinates, not %d`, len(p), len(ordinates))
+	}
+	for i := range ordinates {
+		ordinate, isNumber := ordinates[i].(float64)
+		if !isNumber {
+			return fmt.Errorf(`an ordinate should be a number but is a %T`, ordinates[i])
+		}
+		p[i] = ordinate
+	}
+	return nil
+}
+
 func IsLatLon(crs CRS) (bool, error) {
 	authority := crs.Authority()
 	version := crs.Version()
@@ -598,6 +618,12 @@ func (tm *TileMatrix) UnmarshalJSONFromMap(data interface{}) error {
 	dataMap, ok := data.(map[string]interface{})
 	if !ok {
 		return fmt.Errorf(`data is not a map but a %T`, data)
+	}
+	// JSON numbers are converted to the uint fields without a range check (a negative size would wrap around)
+	for _, key := range []string{"tileWidth", "tileHeight", "matrixWidth", "matrixHeight"} {
+		if number, isNumber := dataMap[key].(float64); isNumber && (number < 0 || number != math.Trunc(number)) {
+			return fmt.Errorf(`%s should be a positive integer, not %v`, key, number)
+		}
 	}
 
 	_, err = marshmallow.UnmarshalFromJSONMap(dataMap, tm, marshmallow.WithExcludeKnownFieldsFromMap(true))
